@@ -17,4 +17,5 @@ INVARIANT Agreement
 INVARIANT ConservesAll
 INVARIANT BalancesAgree
 INVARIANT ViewsAgree
+INVARIANT EmitScripts
 CHECK_DEADLOCK TRUE
